@@ -231,6 +231,9 @@ class FileTransport : public Transport {
 
   /** the receive buffer fill length. */
   size_t m_bufLen;
+
+  /** whether the current buffer content was already handed out by @a read() without anything being consumed. */
+  bool m_bufReturned;
 };
 
 
